@@ -127,14 +127,14 @@ void scenariosArchives(Emitter& e)
 	}
 	// CLM
 	{
-		ref::WavSpec w1; w1.data = pay(6, 0x11); w1.chunkAfterData = true; ref::WavSpec w2; w2.data = pay(3, 0x55); w2.fmtSize = 18; w2.chunkBeforeFmt = true;
+		ref::WavSpec w1; w1.data = pay(6, 0x11); w1.chunkAfterData = true; ref::WavSpec w2; w2.data = pay(4, 0x55); w2.fmtSize = 18; w2.chunkBeforeFmt = true;
 		mc::writeFile("ab.wav", ref::encodeWav(w1)); mc::writeFile("sub/C_1.WAV", ref::encodeWav(w2));
 		Archive::ClmFile::CreateArchive("o.clm", { "ab.wav", "sub/C_1.WAV" }); e.emit("clm-2-tracks", "order0", mc::readFile("o.clm"));
 		Archive::ClmFile::CreateArchive("o.clm", { "./sub/C_1.WAV", "./ab.wav" }); e.emit("clm-2-tracks", "order1", mc::readFile("o.clm"));
 		e.emit("clm-2-tracks", "reference", ref::encodeClm(ref::waveFormat(0), { { "ab", w1.data }, { "C_1", w2.data } }).bytes);
 		{
 			// mixed-case names in two directories: every permutation of the list, and a second spelling, must give the same bytes
-			ref::WavSpec wa; wa.data = pay(4, 0x21); ref::WavSpec wb; wb.data = pay(2, 0x31); ref::WavSpec wd; wd.data = pay(5, 0x41);
+			ref::WavSpec wa; wa.data = pay(4, 0x21); ref::WavSpec wb; wb.data = pay(2, 0x31); ref::WavSpec wd; wd.data = pay(6, 0x41);
 			mc::writeFile("Bass.wav", ref::encodeWav(wb)); mc::writeFile("sub/alto.wav", ref::encodeWav(wa)); mc::writeFile("drum.wav", ref::encodeWav(wd));
 			std::vector<std::string> perm = { "Bass.wav", "drum.wav", "sub/alto.wav" };
 			std::sort(perm.begin(), perm.end());
